@@ -796,3 +796,56 @@ func VerifC03_ResetAfterResponseStarted() {
 	verif.Assert(sender.headers == 1, "the response that had started did not reach the client")
 	verif.Cover("end")
 }
+
+// VerifC03_TimeoutDuringBackoff: an attempt fails (connect failure or pool
+// overflow), a retry is set up, and while the worker sits in the retry
+// back-off any armed timeout may expire. Afterwards the upstream accepts the
+// retry and never answers. Whatever expired during the back-off, a timeout is
+// armed or the request is already answered; when every armed timeout has
+// expired the client has exactly one reply and the request is cleaned up.
+func VerifC03_TimeoutDuringBackoff() {
+	verif.Switches(0)
+	verif.ParkSleepers(1)
+	zzTryTimeout = time.Duration(verif.Choose("route_try_timeout", 2)) * time.Second
+	ds, sender, pool, p, ctx := zzMachine(2, true)
+	zzTryTimeout = 0
+	pool.scripted = true
+	active0 := p.stats.DownstreamRequestActive.Count()
+	done := false
+	go func() {
+		ds.OnReceive(ctx, protocol.CommonHeader{}, nil, nil)
+		done = true
+	}()
+	verif.Settle()
+	verif.EngineOnly("timer expiry during the retry back-off is driven by the engine's timer table and parked sleepers")
+	for round := 0; round < 3 && !done; round++ {
+		if verif.Sleepers() > 0 {
+			// inside the back-off: any armed timer may expire now
+			if n := verif.NumTimers(); n > 0 && verif.Choose("expire_during_backoff", 2) == 1 {
+				verif.FireTimer(verif.Choose("which_timer", n))
+				verif.Cover("expired-in-backoff")
+			}
+			verif.WakeSleepers()
+			verif.Settle()
+			continue
+		}
+		break
+	}
+	for k := 0; k < 6 && !done; k++ {
+		if verif.Sleepers() > 0 {
+			verif.WakeSleepers()
+			verif.Settle()
+			continue
+		}
+		verif.Assert(verif.NumTimers() > 0, "engine: the request waits for a silent upstream with no timeout armed (it hangs)")
+		if verif.NumTimers() == 0 {
+			return
+		}
+		verif.FireTimer(0)
+		verif.Settle()
+	}
+	verif.Assert(done, "engine: every armed timeout expired but the request is still waiting")
+	verif.Assert(sender.headers == 1, "a request whose upstream never answers must get exactly one (timeout) reply")
+	verif.Assert(p.stats.DownstreamRequestActive.Count() == active0-1, "DownstreamRequestActive not released after the timeout")
+	verif.Cover("end")
+}
